@@ -439,17 +439,20 @@ def nodeB (n : ObsNode) : Bool :=
   n.initReported.all (fun m => n.configured.contains m) &&
   (n.starts == (n.reported.isEmpty && n.initReported.isEmpty))
 
+/-- the attribute `<m>.<prop>` as observed on the started node (`none`: `None`, or not observed) -/
+def ObsNode.attachedOf (n : ObsNode) (m prop : Name) : Option Name :=
+  (n.attached.find? (fun e => e.1 == m && e.2.1 == prop)).bind (·.2.2)
+
 /-- monitor for `AttachedApplied` / `BadAttachment` on an observed node: a good attachment shows on the instance of a
-node which starts; a bad one keeps the node from starting and its module is reported -/
+node which starts (and where nothing is given the attribute is `None`); a bad one keeps the node from starting and its
+module is reported -/
 def attachedB (nameOf : Val → Option Name) (mods : List (ModDecl DT Val)) (n : ObsNode) : Bool :=
   mods.all fun m => m.attached.all fun d =>
     match attGiven nameOf m d with
-    | none => !n.starts || !(n.attached.any fun e => e.1 == m.name && e.2.1 == d.prop && e.2.2.isSome)
+    | none => !n.starts || n.attachedOf m.name d.prop == none
     | some t =>
-      if targetOk mods d t then
-        !n.starts || (n.attached.any fun e => e.1 == m.name && e.2.1 == d.prop && e.2.2 == some t)
-      else
-        !n.starts && (n.reported.contains m.name || n.initReported.contains m.name)
+      if targetOk mods d t then !n.starts || n.attachedOf m.name d.prop == some t
+      else !n.starts && (n.reported.contains m.name || n.initReported.contains m.name)
 
 /-- the attachments the configuration gives, as edges `module → attached module` -/
 def attEdges (nameOf : Val → Option Name) (mods : List (ModDecl DT Val)) : List (Name × Name) :=
